@@ -60,6 +60,8 @@ var c07terms = []c07term{
 	{"abort-callback", "global (L, BLOCK)\nf := func() {\n  try {\n    return BLOCK()\n  } finally {\n    L(1)\n  }\n}\nreturn f()", true, "callback"},
 	{"host-panic", "global (L, PANIC)\nf := func() {\n  x := {a: 1}\n  try {\n    return PANIC()\n  } finally {\n    x.a = 2\n  }\n}\nreturn f()", false, ""},
 	{"abort-in-nested-try", "global (L, STARTED)\nspin := func() {\n  STARTED()\n  for {\n  }\n}\nguard := func() {\n  try {\n    return spin()\n  } catch e {\n    return \"guard\"\n  }\n}\nouter := func() {\n  try {\n    return guard()\n  } finally {\n    L(\"never\")\n  }\n}\nreturn outer()", true, "loop"},
+	// a Go module with nested mutable attributes is changed in place by the script
+	{"builtin-module-nested-mutation", "global L\np := import(\"plugins\")\np.registry[\"k\"] = true\np.nested.inner[\"k\"] = 1\np.nested.arr[0][\"k\"] = 2\np.state.n += 1\np.log[0] += 10\np.buf[0] = 7\np.sync[\"k\"] = 3\np.list = append(p.list, 1)\np.version = 2\nreturn [len(p.registry), p.state.n]", true, ""},
 	// the run dies inside a callee while the main function is inside a try statement
 	{"abort-in-callee-under-main-try", "global (L, STARTED)\nspin := func() {\n  STARTED()\n  for {\n  }\n}\ntry {\n  x := [1, 2, 3]\n  return spin()\n} catch e {\n  return \"main caught\"\n} finally {\n  L(\"never\")\n}", true, "loop"},
 	{"value-stack-overflow-under-main-try", "global L\nvar r\nr = func(a, b, c, d, e, f, g, h) {\n  x1 := a\n  x2 := b\n  return 1 + r(x1, x2, c, d, e, f, g, h)\n}\ntry {\n  return r(1, 2, 3, 4, 5, 6, 7, 8)\n} catch e {\n  return \"main caught\"\n}", true, ""},
@@ -83,6 +85,7 @@ var c07observers = []string{
 	// state of an earlier run (handlers, flags) at those depths must not intercept it
 	"global L\ng := func() {\n  return [1][5]\n}\ntry {\n  g()\n} catch e {\n  L(\"main caught\", e.Name)\n}\nh := func() {\n  return 7\n}\nreturn [h(), h()]",
 	"global L\ng3 := func() {\n  throw error(\"deep\")\n}\ng2 := func() {\n  x := g3()\n  return x\n}\ng1 := func() {\n  x := g2()\n  return x\n}\ntry {\n  g1()\n} catch e {\n  L(\"main caught\", e.Message)\n}\nk := func(a) {\n  return a + 1\n}\nreturn [k(1), k(2)]",
+	"global L\np := import(\"plugins\")\nL(len(p.registry), len(p.nested.inner), len(p.nested.arr[0]), p.state.n, p.log[0], p.buf[0], len(p.sync), len(p.list), p.version)\np.state.n += 5\np.registry[\"o\"] = 1\nreturn [p.state.n, len(import(\"plugins\").registry)]",
 	// main-level exits that an own try statement does not cover: a stale handler left in frame 0 would intercept them
 	"global L\ntry {\n  L(1)\n} finally {\n  L(2)\n}\nthrow error(\"uncaught-main\")",
 	"global L\nx := [1]\nL(0)\nreturn x[3]",
@@ -150,7 +153,11 @@ func encodeBytes(bc *ugo.Bytecode) []byte {
 		}
 	}
 	if bc.FileSet != nil {
-		fmt.Fprintf(&sb, ";fs base=%d", bc.FileSet.Base)
+		last := "<nil>"
+		if bc.FileSet.LastFile != nil {
+			last = bc.FileSet.LastFile.Name
+		}
+		fmt.Fprintf(&sb, ";fs base=%d lastfile=%s", bc.FileSet.Base, last)
 		for _, f := range bc.FileSet.Files {
 			fmt.Fprintf(&sb, ";file %s %d %d %v", f.Name, f.Base, f.Size, f.Lines)
 		}
@@ -334,6 +341,7 @@ func (m c07) Run(c *core.Ctx) {
 	newEnv := func() *c07env {
 		mm := ugo.NewModuleMap()
 		mm.AddSourceModule("mod0", []byte(c07mod0))
+		mm.Add("plugins", stdlibModule("plugins"))
 		return &c07env{mm: mm, compiled: map[string]*ugo.Bytecode{}}
 	}
 	env := newEnv()
